@@ -266,8 +266,10 @@ def load_known_findings():
 
 
 def write_evidence(pid, ev):
-    os.makedirs(os.path.join(VERIF, 'evidence'), exist_ok=True)
-    p = os.path.join(VERIF, 'evidence', pid + '.json')
+    # development runs against a scratch copy (VERIF_REPO) can keep their evidence out of the committed directory
+    edir = os.environ.get('VERIF_EVIDENCE_DIR') or os.path.join(VERIF, 'evidence')
+    os.makedirs(edir, exist_ok=True)
+    p = os.path.join(edir, pid + '.json')
     with open(p + '.tmp', 'w') as f:
         json.dump(ev, f, indent=1, default=str)
     os.replace(p + '.tmp', p)
